@@ -40,11 +40,12 @@ type FnEv struct {
 }
 
 type QEv struct {
-	Seq uint64
-	Q   int
-	Sub int
-	K   int // 0 enq ok, 1 enq rejected, 2 deq, 3 purge
-	W   int
+	Seq  uint64
+	Q    int
+	Sub  int
+	K    int // 0 enq ok, 1 enq rejected, 2 deq, 3 purge
+	W    int
+	Task int
 }
 
 type genEv struct {
@@ -215,7 +216,7 @@ func (r *Recorder) qDeq(wd *World, q, sub int) {
 		k = 3
 		r.probes[pbPurgeRemoved]++
 	}
-	r.qevs = append(r.qevs, QEv{Seq: seq, Q: q, Sub: sub, K: k, W: wd.cidx})
+	r.qevs = append(r.qevs, QEv{Seq: seq, Q: q, Sub: sub, K: k, W: wd.cidx, Task: me})
 	if sub >= 0 && sub < len(r.wd.subs) {
 		s := r.wd.subs[sub]
 		if purging {
